@@ -434,6 +434,7 @@ func main() {
 
 	switch *mode {
 	case "c02":
+		gen.NonUTF8 = true
 		nsess, nmsg := 6, 40
 		if thorough {
 			nsess, nmsg = 30, 150
@@ -469,6 +470,14 @@ func main() {
 					maxVar = 40000
 				}
 				s.send(dataSet(r, tid, tmpls[tid], n, maxVar, limit))
+			}
+			// thousands of tiny records in one set (more records than a vectored write takes buffers): one message
+			{
+				one := []*entities.InfoElement{u8}
+				s.send(tmplSet(690, one))
+				for _, n := range []int{1021, 1022, 1023, 1024, 1025, 3000 + r.Intn(2000)} {
+					s.send(dataSet(r, 690, one, n, 1, limit))
+				}
 			}
 			// a template set with two template records, then data for each of them
 			{
@@ -608,7 +617,7 @@ func main() {
 			addr := []*entities.InfoElement{ip4, ip6, mac, oct3, str}
 			s.send(tmplSet(257, addr))
 			for j := 0; j < nmsg; j++ {
-				switch x := r.Intn(16); {
+				switch x := r.Intn(18); {
 				case x == 0: // unknown template id
 					d := dataSet(r, 300+r.Intn(3), big, r.Intn(4), 10, 60000)
 					s.send(d)
@@ -626,6 +635,24 @@ func main() {
 					s.send(padTo(256, big, 65519+r.Intn(22)))
 				case x == 4: // undefined set type
 					s.send(setDesc{stype: "undef"})
+				case x == 10: // an IPv4 address given in its 4-byte form for an ipv6Address element: sent as ::ffff:a.b.c.d
+					v := randVals(r, addr, 20)
+					a4 := []byte{byte(1 + r.Intn(223)), byte(r.Intn(256)), byte(r.Intn(256)), byte(1 + r.Intn(254))}
+					v[1] = []int{0, 0, 0, 0, 0, 0, 0, 0, 0, 0, 0xff, 0xff, int(a4[0]), int(a4[1]), int(a4[2]), int(a4[3])}
+					raw := make([]entities.InfoElementWithValue, len(addr))
+					raw[1] = entities.NewIPAddressInfoElement(ip6, net.IP(a4))
+					s.send(setDesc{stype: "data", hdrID: 257, recs: []rec{{tid: 257, ies: addr, vals: v, raw: raw}}})
+				case x == 11: // wrong field counts that cancel out over the set: one field too many, one too few
+					long := rec{tid: 256, ies: []*entities.InfoElement{u8, str, u8}, vals: [][]int{{1}, {65, 66}, {2}}}
+					short := rec{tid: 256, ies: []*entities.InfoElement{str}, vals: [][]int{{67, 68, 69}}}
+					d := setDesc{stype: "data", hdrID: 256, recs: []rec{long, short}}
+					if r.Intn(2) == 0 {
+						d.recs = []rec{short, long}
+					}
+					if r.Intn(2) == 0 {
+						d.recs = append(d.recs, dataSet(r, 256, big, 1, 10, 60000).recs...)
+					}
+					s.send(d)
 				case x == 5: // ill-typed values
 					v := randVals(r, addr, 20)
 					k := r.Intn(5)
